@@ -12,6 +12,8 @@ Contracts on the real flow/record/base.py:
 Field values n, s (and the members of nested / grouped records) are symbolic; the remaining field types carry representative structured values.
 Hash values are abstract: the engine only knows that hash() is a function of the value, so "equal hashes" is proved by congruence.
 """
+import datetime as _dt
+
 import z3
 
 from .common import *  # noqa
@@ -161,6 +163,35 @@ def build(tier="quick", seed=0):
     pack.add(Obligation("C12.eq.coincidence[descriptors whose identifiers coincide]", lambda tier: prove_paths("C12.eq.coincidence[descriptors whose identifiers coincide]", with_clean_config(th_coincidence),
                         lambda p: (z3.And(z3.Not(tb(p.value[1])), z3.Not(tb(p.value[2]))), f"records of two different descriptors (descriptors equal: {p.value[0]!r}) compare equal: {p.value[1]!r} / {p.value[2]!r}"), lambda m_, p: {}),
                         replay=lambda w: {"call": "c12_coincidence", "args": {}}, functions=FU, mode="the representative pair"))
+
+    # ---- a list field that was filled in place (append / extend of raw values) holds the same values as one given at construction: equal and equal hashes
+    def th_inplace():
+        D = it.call(RD, ["c12/lists", [("path[]", "ps"), ("net.ipaddress[]", "ips"), ("string[]", "ss"), ("uint16[]", "us")]], {})
+        a = it.call(D, [], {"ps": ["/a", "/b"], "ips": ["1.2.3.4", "::1"], "ss": ["x", "y"], "us": [1, 2]})
+        b = it.call(D, [], {"ps": ["/a"], "ips": [], "ss": ["x"], "us": [1], "_generated": a.attrs["_generated"]})
+        it.call(it.getattr_(b.attrs["ps"], "append"), ["/b"], {})
+        it.call(it.getattr_(b.attrs["ips"], "extend"), [["1.2.3.4", "::1"]], {})
+        it.call(it.getattr_(b.attrs["ss"], "append"), ["y"], {})
+        it.call(it.getattr_(b.attrs["us"], "append"), [2], {})
+        return it.compare("Eq", a, b), it.compare("Eq", b, a), it.hash_(a), it.hash_(b)
+
+    pack.add(Obligation("C12.eq.list[filled in place with raw values]", lambda tier: prove_paths("C12.eq.list[filled in place with raw values]", with_clean_config(th_inplace),
+                        lambda p: (z3.And(tb(p.value[0]), tb(p.value[1]), hterm(p.value[2]) == hterm(p.value[3])), f"two records whose list fields hold the same values (one filled by append / extend): == {p.value[0]!r} / {p.value[1]!r}, hashes equal: {p.value[2]!r} vs {p.value[3]!r}"), lambda m_, p: {}),
+                        replay=lambda w: {"call": "c12_laws", "args": {"kind": "inplace"}}, functions=FU, mode="representative list element types (path, address, text, integer)"))
+
+    # ---- nested records that differ only in a field configured to be ignored: the holders are equal AND hash alike
+    def th_nested_ignored():
+        I = it.call(RD, ["c12/inner", [("string", "s")]], {})
+        O = it.call(RD, ["c12/outer", [("record", "r"), ("record[]", "rs")]], {})
+        T1, T2 = _dt.datetime(2020, 1, 1, tzinfo=_dt.timezone.utc), _dt.datetime(2021, 1, 1, tzinfo=_dt.timezone.utc)
+        a = it.call(O, [], {"r": it.call(I, [], {"s": "x", "_generated": T1, "_source": "one"}), "rs": [it.call(I, [], {"s": "y", "_generated": T1})], "_generated": T1})
+        b = it.call(O, [], {"r": it.call(I, [], {"s": "x", "_generated": T2, "_source": "two"}), "rs": [it.call(I, [], {"s": "y", "_generated": T2})], "_generated": T2})
+        set_ignore(["_generated", "_source"])
+        return it.compare("Eq", a, b), it.compare("Eq", b, a), it.hash_(a), it.hash_(b)
+
+    pack.add(Obligation("C12.hash[nested records that differ in ignored fields only]", lambda tier: prove_paths("C12.hash[nested records that differ in ignored fields only]", with_clean_config(th_nested_ignored),
+                        lambda p: (z3.And(tb(p.value[0]), tb(p.value[1]), hterm(p.value[2]) == hterm(p.value[3])), f"holders of nested records that differ only in ignored fields: == {p.value[0]!r} / {p.value[1]!r}; hashes {p.value[2]!r} vs {p.value[3]!r}"), lambda m_, p: {}),
+                        replay=lambda w: {"call": "c12_laws", "args": {"kind": "nested_ignored"}}, functions=FU, mode="record and record[] fields under the configuration {_generated, _source}"))
 
     # ---- a grouped record whose member changes after it was hashed: equal records still have equal hashes
     def th_grouped_mutation():
